@@ -43,10 +43,12 @@ UNIVERSE = {
         {'name': 'e', 'schema': 'public', 'content': 0},   # equal twin
         {'name': 'e', 'schema': 'public', 'content': 1},   # same name, other items
         {'name': 'f', 'schema': 's', 'content': 0},
+        {'name': 'z', 'schema': 's', 'content': 9},        # an enum without items (content 9 = no items)
     ],
     'G': [{'name': 'g'}, {'name': 'g'}, {'name': 'h'}],
     # sticky notes: N[1] is a look-alike of N[0] (same name, same text): containment goes by the object, not by its looks
-    'N': 3, 'P': 2,
+    # ... and N[3] has an empty text (it is falsy: `StickyNote.__bool__` is `bool(text)`)
+    'N': 4, 'P': 2,
 }
 RENAMES = ['a', 'b', 'zz']
 SCHEMAS = ['public', 's']
@@ -88,9 +90,9 @@ class World:
                 cols.append(self.T[owner].columns[key] if owner is not None else Column(['id', 'x'][key], 'int'))
             self.R.append(Reference(typ, cols[:n1], cols[n1:], name=name, comment=comment, on_update=upd,
                                     on_delete=dele, inline=r.get('inline', False)))
-        self.E = [Enum(e['name'], [EnumItem(f"i{e['content']}")], schema=e['schema']) for e in u['E']]
+        self.E = [Enum(e['name'], [EnumItem(f"i{e['content']}")] if e['content'] != 9 else [], schema=e['schema']) for e in u['E']]
         self.G = [TableGroup(g['name'], []) for g in u['G']]
-        self.N = [StickyNote(['n0', 'n0', 'n1'][i] if i < 3 else f'n{i}', 'text') for i in range(u['N'])]
+        self.N = [StickyNote(['n0', 'n0', 'n1'][i] if i < 3 else f'n{i}', 'text' if i != 3 else '') for i in range(u['N'])]
         self.P = [Project(f'p{i}') for i in range(u['P'])]
         self.other = [Column('zz', 'int'), 'a string', 42]
         self.exp = {'table': [], 'ref': [], 'enum': [], 'group': [], 'sticky': [], 'project': None}
@@ -309,7 +311,7 @@ CORE_OPS = [['add', 'table', 0], ['add', 'table', 1], ['add', 'table', 2], ['add
             ['add', 'ref', 0], ['add', 'ref', 1], ['add', 'ref', 3], ['add', 'ref', 4], ['add', 'ref', 5], ['delete', 'ref', 1],
             ['add', 'enum', 0], ['add', 'enum', 1], ['add', 'enum', 2], ['delete', 'enum', 1],
             ['add', 'group', 0], ['add', 'group', 1], ['delete', 'group', 0],
-            ['add', 'sticky', 0], ['delete', 'sticky', 0], ['add', 'sticky', 1], ['delete', 'sticky', 1], ['add', 'project', 0], ['add', 'project', 1], ['deleteProject'],
+            ['add', 'sticky', 0], ['delete', 'sticky', 0], ['add', 'sticky', 1], ['delete', 'sticky', 1], ['add', 'sticky', 3], ['delete', 'sticky', 3], ['add', 'enum', 4], ['delete', 'enum', 4], ['add', 'project', 0], ['add', 'project', 1], ['deleteProject'],
             ['add', 'other', 0], ['delete', 'other', 0],
             ['setName', 0, 'b'], ['setName', 2, 'zz'], ['setAlias', 2, 'y'], ['setSchema', 0, 's'], ['setAlias', 4, None]]
 
@@ -336,7 +338,7 @@ def gen_histories(ctx):
             op = ops[rng.randrange(len(ops))]
             if j < 6 and rng.random() < 0.7:
                 op = ['add', rng.choice(['table', 'table', 'ref', 'enum', 'group', 'sticky', 'project']), 0]
-                op[2] = rng.randrange({'table': 6, 'ref': 6, 'enum': 4, 'group': 3, 'sticky': 3, 'project': 2}[op[1]])
+                op[2] = rng.randrange({'table': 6, 'ref': 6, 'enum': 5, 'group': 3, 'sticky': 4, 'project': 2}[op[1]])
             h.append(op)
         hs.append(h)
     return hs
@@ -643,9 +645,9 @@ def main(tier, seed):
         if drv is not None:
             drv.close()
     return ctx.finish(
-        rule='universe of 6 tables / 6 references / 4 enums / 3 groups / 3 sticky notes (two look-alikes) / 2 projects built to clash (same full '
+        rule='universe of 6 tables / 6 references / 4 enums / 3 groups / 4 sticky notes (two look-alikes, one with an empty text)  / 2 projects built to clash (same full '
              'name, structurally equal twins, alias equal to another key, identical reference inline and standalone, reference '
-             'with no table, enum twins); histories: all pairs (quick) / triples (thorough) over 36 core operations, random '
+             'with no table, enum twins); histories: all pairs (quick) / triples (thorough) over 40 core operations, random '
              'triples, random histories of 4-60 operations incl. renames; canonical state + outcome compared after every step. '
              'Table level: random histories of 30 column/index operations. Non-trivial: at least one successful and one '
              'rejected operation; distinct by history hash',
